@@ -161,6 +161,9 @@ func runSeq(prop, tier string, sc *core.Scratch, ev *core.Evidence, rep *core.Re
 	}
 	bin, out, err := mod.Build(false)
 	if err != nil {
+		if !strings.Contains(out, "mocks_gen.go") {
+			return 2, core.Infra("building the driver failed (not in generated code):\n%s", core.Tail(out, 30))
+		}
 		return corpusBroken(prop, rep, "the generated mocks of the run-time corpus do not compile", out)
 	}
 	maxLen2, maxLen1 := 2, 3
